@@ -71,8 +71,16 @@ for _n, _v, _x, _req in (("CatR", "cat", "lives", True), ("DogR", "dog", "barkVo
     _t = _dv(_v, _x, name_required=_req)
     _t[0]["properties"]["kind"] = {"$ref": "#/components/schemas/PetKind"}
     DISC[_n] = _t
+# ... or the discriminator values differ only in letter case / punctuation (credit_card vs credit-card, SMS vs sms): distinct
+# values, however their member names are derived
+DISC["PayU"] = _dv("credit_card", "limit")
+DISC["PayH"] = _dv("credit-card", "fee")
+DISC["PayC"] = _dv("CREDIT CARD", "rate", name_required=False)
+DISC["MsgU"] = _dv("SMS", "segments", enum=False)
+DISC["MsgL"] = _dv("sms", "parts", enum=False)
 SHARED = {"PetKind": {"type": "string", "enum": ["cat", "dog", "eel"]}}
-FAMILIES = {"shared_enum_schema": ["CatR", "DogR", "EelR"], "plain": ["Cat", "Dog", "Eel"], "rewritten": ["CatV2", "HTTPDog", "eel_fish"], "several_values_plain_string": ["CatS", "DogS", "Eel"],
+FAMILIES = {"values_equal_after_folding": ["PayU", "PayH", "PayC"], "values_differ_in_case_only": ["MsgU", "MsgL", "Eel"],
+            "shared_enum_schema": ["CatR", "DogR", "EelR"], "plain": ["Cat", "Dog", "Eel"], "rewritten": ["CatV2", "HTTPDog", "eel_fish"], "several_values_plain_string": ["CatS", "DogS", "Eel"],
             "several_values_enum": ["CatE", "DogE", "Eel"]}
 
 
